@@ -111,6 +111,7 @@ _E = ["eventCall", "smSend"]
 SRC_TIE = {
     "C07": ["eventCall", "reservedNames", "injectedNames", "bindExpected", "callableMethod"],
     "C13": _E,
+    "C09": ["visitConnected", "classCheck", "metaInit", "transitionInit"],
     "C01": ["triggerSync", "triggerAsync"] + _W + _G,
     "C02": ["activateSync", "activateAsync"] + _W + _A,
     "C03": ["processSync", "processAsync"] + _E,
@@ -124,7 +125,7 @@ SRC_TIE = {
 TIE_MOD = "SMV.Src.Tie"
 TIE_MODS = ["SMV.Src.Tie", "SMV.Src.TieExpr"]
 # further tie modules, built and audited only for the properties whose index names their theorems
-TIE_EXTRA = {"C07": ["SMV.Src.TieBind"]}
+TIE_EXTRA = {"C07": ["SMV.Src.TieBind"], "C09": ["SMV.Src.TieCheck"]}
 
 
 def source_tie(ctx: Ctx):
